@@ -11,12 +11,38 @@ FILE = "sparseSpACE/DEMachineLearning.py"
 I, R, U = z3.IntSort(), z3.RealSort(), P.U
 
 
+ATTRS = ("_label", "_shuffled", "_scaling_range", "_scaling_factor")     # opaque attribute values copied by reference
+
+
 def dataset(S, tag=""):
+    from pyvc.values import Opaque
     n = S.int("n" + tag)
     S.assume(n >= 0)
     samples = S.seq("samples" + tag, n, U, kind="array")
     labels = S.seq("labels" + tag, n, R, kind="array")
-    return Obj("DataSet", dict(_data=Seq("tuple", [samples, labels]), _dim=S.int("dim" + tag), _scaled=S.bool("scaled" + tag)))
+    d = S.int("dim" + tag)
+    f = dict(_data=Seq("tuple", [samples, labels]), _dim=d, _scaled=S.bool("scaled" + tag),
+             _original_min=S.seq("original_min" + tag, d, R, kind="array"), _original_max=S.seq("original_max" + tag, d, R, kind="array"))
+    for a in ATTRS:
+        f[a] = Opaque(S.const(a + tag, U))
+    return Obj("DataSet", f)
+
+
+def attrs_equal(a, b):
+    """the scaling attributes of data set a equal those of b (values; the per-dimension original minima / maxima element-wise)"""
+    fa, fb = a.fields, b.fields
+    out = []
+    for k in ATTRS:
+        if k not in fa or k not in fb:
+            return False
+        out.append(fa[k].term == fb[k].term)
+    if "_scaled" not in fa or not isinstance(fa.get("_original_min"), Seq) or not isinstance(fa.get("_original_max"), Seq):
+        return False
+    out.append(fa["_scaled"] == fb["_scaled"] if not (isinstance(fa["_scaled"], bool) and isinstance(fb["_scaled"], bool)) else z3.BoolVal(fa["_scaled"] == fb["_scaled"]))
+    for k in ("_original_min", "_original_max"):
+        x, y = fa[k].to_symbolic(), fb[k].to_symbolic()
+        out.append(z3.And(x.arr == y.arr, (x.len() == y.len()) if not (isinstance(x.len(), int) and isinstance(y.len(), int)) else z3.BoolVal(x.len() == y.len())))
+    return z3.And(*out)
 
 
 class DataSetInit(Contract):
@@ -29,7 +55,12 @@ class DataSetInit(Contract):
 
     def init_fields(self, S, cenv):
         raw = cenv["raw_data"]
-        return {"_data": raw, "_dim": S.int("newdim"), "_scaled": False}
+        from pyvc.values import Opaque
+        f = {"_data": raw, "_dim": S.int("newdim"), "_scaled": False, "_original_min": S.seq("new.original_min", 0, R, kind="array"),
+             "_original_max": S.seq("new.original_max", 0, R, kind="array")}
+        for a in ATTRS:
+            f[a] = Opaque(S.const("new" + a, U))
+        return f
 
 
 class GetLength(Contract):
@@ -45,15 +76,35 @@ class GetLength(Contract):
 
 
 class UpdateInternal(Contract):
+    """DataSet._update_internal: afterwards the given set carries the receiver's scaling attributes (for a scaled receiver the original minima / maxima
+    as its OWN arrays); neither set's samples or labels are touched; the given set is returned"""
     file, qualname = FILE, "DataSet._update_internal"
-    trusted = True
-    note = "copies the scaling attributes to the given set; does not touch either set's data"
 
     def inputs(self, S):
         return {"self": dataset(S), "to_update": dataset(S, "2")}
 
+    def havoc(self, S, cenv, tag):
+        # caller-side effect (proved below as the function's own postcondition): attributes of the argument become the receiver's
+        t, s_ = cenv["to_update"].fields, cenv["self"].fields
+        for a in ATTRS:
+            t[a] = s_[a]
+        t["_scaled"] = s_["_scaled"]
+        for k in ("_original_min", "_original_max"):
+            src = s_[k].to_symbolic()
+            t[k] = Seq("array", None, src.len(), src.arr)
+
     def result(self, S, env):
         return env["to_update"]
+
+    def post(self, S, old, env, result):
+        t, s_ = env["to_update"], env["self"]
+        own = all(t.fields.get(k) is not s_.fields.get(k) for k in ("_original_min", "_original_max"))
+        scaled = old["self"].fields["_scaled"]
+        return [Cl("argument-carries-the-receivers-scaling-attributes", attrs_equal(t, old["self"]), prop=True),
+                Cl("returns-the-argument", result is env["to_update"]),
+                Cl("original-extrema-are-own-copies-when-scaled", z3.Implies(scaled, z3.BoolVal(own)) if not isinstance(scaled, bool) else (own or not scaled)),
+                Cl("data-of-both-sets-untouched", z3.And(*[a.to_symbolic().arr == b.to_symbolic().arr for x in ("self", "to_update")
+                                                          for a, b in zip(env[x].fields["_data"].items, old[x].fields["_data"].items)]))]
 
 
 class SplitPieces(Contract):
@@ -77,6 +128,7 @@ class SplitPieces(Contract):
                 Cl("pieces-cover-the-set-without-overlap", z3.And(k >= 0, k <= n, V(l0.len()) == k, V(s1.len()) == n - k, V(l1.len()) == n - k), prop=True),
                 Cl("first-piece-is-the-prefix-labels-attached", z3.ForAll([i], z3.Implies(z3.And(i >= 0, i < k), z3.And(z3.Select(s0.arr, i) == z3.Select(s.arr, i), z3.Select(l0.arr, i) == z3.Select(l.arr, i)))), prop=True),
                 Cl("second-piece-is-the-suffix-labels-attached", z3.ForAll([i], z3.Implies(z3.And(i >= 0, i < n - k), z3.And(z3.Select(s1.arr, i) == z3.Select(s.arr, i + k), z3.Select(l1.arr, i) == z3.Select(l.arr, i + k)))), prop=True),
+                Cl("both-pieces-carry-the-scaling-attributes", z3.And(attrs_equal(result.items[0], old["self"]), attrs_equal(result.items[1], old["self"])), prop=True),
                 Cl("receiver-data-unchanged", z3.And(*[a.to_symbolic().arr == b.to_symbolic().arr for a, b in zip(env["self"].fields["_data"].items, old["self"].fields["_data"].items)]))]
 
 
